@@ -1,7 +1,8 @@
 --------------------------- MODULE Gen_AdtLayout ---------------------------
 (* Stage (B) for C14: TLC enumerates the shape space of ADT tiles.                                 *)
 (*   shape == [ver, ntex, nmdl, nwmo, nddf, nmodf, dtex, dmdl, dwmo, mcnk, where, mcvt, mcnr, nly, mcrf, mcal, mcsh,  *)
-(*             mclq, mccv, mcse, mclv, water, wlay, wbase, mfbo, mtxf, mamp, mtxp, bmesh]           *)
+(*             mclq, mccv, mcse, mclv, water, wlay, wbase, mfbo, mtxf, mamp, mtxp, bmesh,          *)
+(*             vals, pcls, pbit, route]                                                             *)
 (* The full product has ~5*10^9 elements, so both tiers use the reduced product: deterministic     *)
 (* low-dimensional slices through the baseline shape (every version x every optional top-level     *)
 (* kind alone / all together; every optional sub-chunk alone; MCNK population x placement of the   *)
@@ -20,7 +21,8 @@ Lay == [mcnk_hdr |-> McnkHdr, mcnk_fields |-> McnkFields, mhdr_fields |-> MhdrFi
 Base == [ver |-> 0, ntex |-> 1, nmdl |-> 0, nwmo |-> 0, nddf |-> 0, nmodf |-> 0, dtex |-> "none", dmdl |-> "none", dwmo |-> "none", mcnk |-> "one00", where |-> "all",
          mcvt |-> TRUE, mcnr |-> TRUE, nly |-> 1, mcrf |-> FALSE, mcal |-> FALSE, mcsh |-> FALSE, mclq |-> FALSE,
          mccv |-> FALSE, mcse |-> FALSE, mclv |-> FALSE, water |-> "none", wlay |-> 1, wbase |-> 0, mfbo |-> FALSE, mtxf |-> FALSE,
-         mamp |-> FALSE, mtxp |-> FALSE, bmesh |-> FALSE]
+         mamp |-> FALSE, mtxp |-> FALSE, bmesh |-> FALSE,
+         vals |-> "rand", pcls |-> "rand", pbit |-> 0, route |-> "root"]
 
 Vers    == 0..5
 Cards   == <<0, 1, 3>>
@@ -74,6 +76,20 @@ S7 == {[Base EXCEPT !.ver = 2, !.ntex = 3, !.nmdl = 3, !.nwmo = 3, !.nddf = 3, !
       \cup {[Base EXCEPT !.ver = 5, !.ntex = 3, !.nmdl = 3, !.nwmo = 3, !.nddf = 3, !.nmodf = 3, !.dtex = Dups[a], !.dmdl = Dups[a], !.dwmo = Dups[a],
                           !.mtxf = TRUE, !.mtxp = TRUE, !.mcnk = "n17"] : a \in 1..4}
 
+\* S8: value classes of scalar fields (vals): degenerate ranges (min = max: MCLQ / MH2O heights, bounding boxes, MFBO
+\*     planes), zero / negative zero, extremes -- on a tile that carries MCLQ, MH2O (2 layers), MFBO, placements
+ValCls == <<"flat", "zero", "extreme">>
+S8 == {AllTop([Base EXCEPT !.ver = v, !.vals = ValCls[a], !.mclq = TRUE, !.mccv = lastq, !.wlay = 2, !.nmdl = 1, !.nddf = 3, !.nwmo = 1, !.nmodf = 3]) :
+          v \in {1, 3, 5}, a \in 1..3, lastq \in BOOLEAN}
+\* S9: every rebuild route x every optional top-level kind (alone at each admissible version, and all together)
+S9 == {AllTop([Base EXCEPT !.ver = v, !.route = rt, !.ntex = 3, !.nmdl = 1, !.nddf = 1, !.nwmo = 1, !.nmodf = 1, !.mclq = TRUE]) : v \in Vers, rt \in {"root", "builder"}}
+      \cup {WithTop([Base EXCEPT !.ver = v, !.route = "builder", !.ntex = 3], TopKinds[q]) : v \in Vers, q \in {j \in 1..Len(TopKinds) : TRUE}}
+      \cup {AllSubs(AllTop([Base EXCEPT !.ver = v, !.route = "builder", !.mcnk = "n17", !.nly = 3, !.ntex = 3])) : v \in {2, 4}}
+\* S10: placement field classes: lo (ids / flags / sets 0, WMO scale 0, doodad scale 1), hi (all ones), bits (one id bit and
+\*      one flag bit per placement, rotating from pbit), name_id last..first; 3 + 3 placements
+S10 == {[Base EXCEPT !.ver = v, !.pcls = pc, !.nmdl = 3, !.nddf = 3, !.nwmo = 3, !.nmodf = 3] : v \in {0, 3}, pc \in {"lo", "hi"}}
+       \cup {[Base EXCEPT !.ver = 2, !.pcls = "bits", !.pbit = b, !.nmdl = 3, !.nddf = 3, !.nwmo = 3, !.nmodf = 3] : b \in 0..15}
+
 \* ---- seeded draws from the full product
 Lcg(x) == (x * 75 + 74) % 65537
 DrawBool(x)    == (x \div 7) % 2 = 1
@@ -88,7 +104,10 @@ Draw(m) ==
         \* optional kinds: mostly admissible for the drawn version (an inadmissible one ends at Build)
         adm(kd, x) == DrawBool(x) /\ (v >= MinVerOf(kd) \/ x % 8 = 0)
         nm == DrawOf(Cards, x3)   nw == DrawOf(Cards, x4)
-    IN [dtex |-> Dups[((x22 \div 29) % 4) + 1], dmdl |-> Dups[((x23 \div 29) % 4) + 1], dwmo |-> Dups[((x24 \div 29) % 4) + 1],
+    IN [vals |-> DrawOf(<<"rand", "rand", "rand", "flat", "zero", "extreme">>, x9 \div 11),
+        pcls |-> DrawOf(<<"rand", "rand", "lo", "hi", "bits">>, x10 \div 11), pbit |-> (x11 \div 13) % 16,
+        route |-> IF (x12 \div 11) % 2 = 0 THEN "root" ELSE "builder",
+        dtex |-> Dups[((x22 \div 29) % 4) + 1], dmdl |-> Dups[((x23 \div 29) % 4) + 1], dwmo |-> Dups[((x24 \div 29) % 4) + 1],
         ver |-> v, ntex |-> IF x2 % 16 = 0 THEN 0 ELSE DrawOf(<<1, 3>>, x2), nmdl |-> nm, nwmo |-> nw,
         nddf |-> IF nm = 0 /\ x5 % 8 # 0 THEN 0 ELSE DrawOf(Cards, x5),
         nmodf |-> IF nw = 0 /\ x6 % 8 # 0 THEN 0 ELSE DrawOf(Cards, x6),
@@ -111,7 +130,8 @@ T1 == IF Thorough
 Shapes == SetToSeq(S1) \o SetToSeq(S2 \ S1) \o SetToSeq(S3 \ (S1 \cup S2)) \o SetToSeq(S4 \ (S1 \cup S2 \cup S3))
           \o SetToSeq(S5 \ (S1 \cup S2 \cup S3 \cup S4)) \o SetToSeq(S6 \ (S1 \cup S2 \cup S3 \cup S4 \cup S5))
           \o SetToSeq(S7 \ (S1 \cup S2 \cup S3 \cup S4 \cup S5 \cup S6))
-          \o SetToSeq(T1 \ (S1 \cup S2 \cup S3 \cup S4 \cup S5 \cup S6 \cup S7)) \o Draws
+          \o SetToSeq((S8 \cup S9 \cup S10) \ (S1 \cup S2 \cup S3 \cup S4 \cup S5 \cup S6 \cup S7))
+          \o SetToSeq(T1 \ (S1 \cup S2 \cup S3 \cup S4 \cup S5 \cup S6 \cup S7 \cup S8 \cup S9 \cup S10)) \o Draws
 Cases == [j \in 1..Len(Shapes) |-> [fld \in DOMAIN Shapes[j] \cup {"lay", "id", "wl"} |->
              IF fld = "lay" THEN Lay ELSE IF fld = "id" THEN j ELSE IF fld = "wl" THEN LayerCfg(Shapes[j].wbase) ELSE Shapes[j][fld]]]
 \* the generator is a constant-level computation; the behaviour spec is a single stuttering-free state
